@@ -148,6 +148,25 @@ DecodeLaws(t) ==
     /\ \A m \in 0..n : LeadsOff(DecodePrefix(SubSeq(t, 1, m)), d)   \* decoding is monotone in the run
     /\ (n % 4 = 0 => Encode(d) = SubSeq(t, 1, n))              \* complete groups re-encode to themselves
 
+(* round 4 - laws of COMPOSED calls (each is executed on the real functions: ops "X" and "R" of Base64Check.tla)     *)
+(* concatenation: encodings of whole 24-bit groups concatenate; a padded encoding ends the decodable run            *)
+ConcatLaws(a, b) ==
+    LET ea == Encode(a)
+        eb == Encode(b) IN
+    /\ DecodePrefix(ea \o eb) = IF Len(a) % 3 = 0 THEN a \o b ELSE a
+    /\ Len(a) % 3 = 0 => Encode(a \o b) = ea \o eb
+    /\ Len(Encode(a \o b)) <= Len(ea) + Len(eb)
+(* re-encoding what was decoded from ARBITRARY text: decode . encode . decode = decode; the characters of the text   *)
+(* that are made of decoded bits only come back unchanged; a run of whole groups comes back entirely                *)
+ReencodeLaws(t) ==
+    LET d == DecodePrefix(t)
+        n == AlphaRun(t)
+        r == Encode(d) IN
+    /\ DecodePrefix(r) = d
+    /\ Len(r) = 4 * ((DecLen(n) + 2) \div 3)
+    /\ \A i \in 1..((8 * Len(d)) \div 6) : r[i] = t[i]
+    /\ n % 4 = 0 => r = SubSeq(t, 1, n)
+
 (* RFC 4648 section 10 *)
 Str_f == <<102>>
 Str_fo == <<102, 111>>
